@@ -33,3 +33,14 @@ package lintutil
 //@   requires s != nil
 //@   pure
 //@   ensures @len-of-view result == len(s.items)
+
+// ---- C10: ContainsNode is a deterministic search; the ghost maps record, per root, that a scan was made and what it said
+//@ ghost $scanned(ref) bool
+//@ ghost $scanFound(ref) bool
+
+//@ func ContainsNode
+//@   prop C10
+//@   trusted the search itself (FindNode over astutil.Apply with a caller-supplied predicate) is not interpreted; only the fact that a scan of this root was made, and its result, are recorded
+//@   assigns nothing
+//@   sets $scanned(payload(root)) := true
+//@   sets $scanFound(payload(root)) := result
